@@ -233,6 +233,9 @@ func shutResRun(w *World) {
 		if t.Flag(1, 3) {
 			s.stopAfter = 1 + t.Choose(3)
 		}
+		if !s.cfg.Backpressure && t.Flag(1, 4) {
+			s.lag = []time.Duration{100 * time.Millisecond, time.Second}[t.Choose(2)]
+		}
 		subs = append(subs, s)
 	}
 	for _, s := range subs {
@@ -244,6 +247,9 @@ func shutResRun(w *World) {
 			s.pullReturn = w.Step()
 			if s.cfg.UsePullID {
 				t.Yield("opened") // let the inner subscription start up before the first receive or cancel
+			}
+			if s.lag > 0 {
+				t.Sleep(s.lag) // a slow (lossy) consumer: comes for its first event when everybody else is at rest or blocked
 			}
 			for {
 				if s.stopAfter > 0 && len(s.events) >= s.stopAfter {
@@ -404,13 +410,12 @@ func shutResRun(w *World) {
 							}
 						}
 					}
-					// the subscription must also have known the item: it received something, or subscribed updates-only
 					if !s.cfg.Backpressure {
 						// Without backpressure a remove followed by an add is merged into a replace and the stream
-						// legitimately continues; and a removal can be cancelled against a duplicate of the seed (the
-						// separately recorded C03 finding). Only backpressured streams are owed the removal here; the lossy
-						// case is C03's, where the mechanism is classified.
-						certain = false
+						// legitimately continues, so single removals prove nothing; but a stream that has delivered the item
+						// and is still open at rest when the item is gone has missed its end
+						_, present := store[s.cfg.PullID]
+						certain = !present
 					}
 					if certain && len(s.events) > 0 {
 						w.Violate("pullid-not-closed", fmt.Sprintf("%s: item %q was removed after the subscription was open but the stream did not end; events: %s", s.name, s.cfg.PullID, eventsString(s.events)), nil)
@@ -428,9 +433,6 @@ func shutResRun(w *World) {
 						want[id] = proj(v)
 					}
 					if viewString(view) != viewString(want) {
-						if !s.cfg.Backpressure && shutSeedDup(s.subscriber, store) {
-							continue // the separately recorded lossy seed-duplicate finding (C03), not a shutdown problem
-						}
 						w.Violate("survivor-diverged", fmt.Sprintf("%s [%s] (never cancelled, keeps receiving) view {%s} store {%s}; events: %s", s.name, s.cfg, viewString(view), viewString(want), eventsString(s.events)),
 							map[string]any{"resource": "collection"})
 					}
@@ -453,28 +455,4 @@ func shutResRun(w *World) {
 			w.Violate("not-closed", fmt.Sprintf("%s [%s]: channel still open after its context was cancelled", s.name, s.cfg), map[string]any{"resource": resName(coll)})
 		}
 	}
-}
-
-// shutSeedDup recognises the C03 known finding (a seeded item whose removal a lossy subscriber never learns of).
-func shutSeedDup(s *subscriber, store map[string]mm) bool {
-	view := foldColl(s.events)
-	for id := range view {
-		if _, in := store[id]; in {
-			continue
-		}
-		seeded, later := false, false
-		for _, e := range s.events {
-			if e.ID == id {
-				if e.Seed {
-					seeded = true
-				} else {
-					later = true
-				}
-			}
-		}
-		if seeded && !later {
-			return true
-		}
-	}
-	return false
 }
